@@ -9,7 +9,46 @@ OPS = ['fifo', 'lifo', 'next', 'circuit', 'defer', 'recall']
 SIGS = ['E1', 'E2', 'E3', 'HPOSTF', 'HPOSTL', 'HDEFER', 'HRECALL']
 
 
+def run_pre_start(sc):
+    """events deferred / posted before start_at are still there afterwards"""
+    from miros.event import Event, signals, return_status
+    from miros.hsm import HsmWithQueues, spy_on
+    log = []
+
+    def only(chart, e):
+        if e.signal in (signals.ENTRY_SIGNAL, signals.EXIT_SIGNAL, signals.INIT_SIGNAL):
+            return return_status.HANDLED
+        if e.signal in (signals.SEARCH_FOR_SUPER_SIGNAL, signals.EMPTY_SIGNAL, signals.REFLECTION_SIGNAL):
+            chart.temp.fun = chart.top
+            return return_status.SUPER
+        log.append(e.signal_name)
+        return return_status.HANDLED
+    fn = spy_on(only) if sc['spy'] else only
+    if sc['host'] == 'ActiveObject':
+        from miros.activeobject import ActiveObject
+        ch = ActiveObject(name='c15pre')
+        start = lambda: HsmWithQueues.start_at(ch, fn)      # the chart without its thread
+    else:
+        ch = HsmWithQueues()
+        start = lambda: ch.start_at(fn)
+    ch.defer(Event(signal='X'))
+    ch.defer(Event(signal='Y'))
+    ch.post_fifo(Event(signal='A'))
+    start()
+    r1, r2, r3 = ch.recall(), ch.recall(), ch.recall()
+    got = [r.signal_name if r is not None else None for r in (r1, r2, r3)]
+    if got != ['X', 'Y', None]:
+        return False, 'defer X, defer Y, start_at, three recalls returned %s' % got, 'start_at'
+    ch.complete_circuit()
+    if log != ['A', 'X', 'Y']:
+        return False, 'post A, defer X, defer Y, start_at, recall, recall: dispatched %s' % log, 'start_at'
+    return True, ''
+
+
 def scenarios(seed, tier, failed):
+    for host in ('HsmWithQueues', 'ActiveObject'):
+        for spy in (True, False):
+            yield {'kind': 'pre-start', 'host': host, 'spy': spy, 'timeout': 20}
     rnd = random.Random(seed + 5)
     n = 600 if tier == 'quick' else 20000
     for k in range(n):
@@ -48,6 +87,8 @@ class Ref:
 
 
 def run(sc):
+    if sc.get('kind') == 'pre-start':
+        return run_pre_start(sc)
     from miros.event import Event, signals, return_status
     from miros.hsm import HsmWithQueues, spy_on
     logs = [[] for _ in range(sc['charts'])]
